@@ -37,7 +37,7 @@ Definition mir_dict nS nA P R av ab ini g (mi : nat) eps (Vimpl : list Q) tol :=
   (snd r, @allclose Q NumQ m tol (fst r) Vimpl).
 """
 
-CLAUSES = ["wfb", "c_abs", "c_mask", "c_res", "c_q", "c_pol", "c_init"]
+CLAUSES = ["wfb", "c_abs", "c_mask", "c_res", "c_q", "c_pol", "c_init", "c_polu"]
 
 
 def qopt(x):
@@ -162,10 +162,18 @@ def gen_case(rng, tier):
         # entered by an extra action of some state; usually outside the initial support
         t = m["n"]
         m["n"] += 1
-        m["actions"].append([0])
+        # usually several available actions but not all of the action list (the policy there must still be a
+        # distribution over the state's OWN actions), sometimes a single one
+        if rng.random() < .3:
+            tacts = [0]
+        else:
+            m["nA"] = max(m["nA"], 3)
+            tacts = sorted(rng.sample(range(m["nA"]), 2))
+        m["actions"].append(tacts)
         m["absorbing"].append(False)
-        m["trans"]["%d,0" % t] = [[t, "1"]]
-        m["reward"]["%d,0,%d" % (t, t)] = str(F(rng.randint(-3, -1)))
+        for a_ in tacts:
+            m["trans"]["%d,%d" % (t, a_)] = [[t, "1"]]
+            m["reward"]["%d,%d,%d" % (t, a_, t)] = str(F(rng.randint(-3, -1)))
         src = rng.randrange(t)
         if not m["absorbing"][src]:
             a = rng.choice(m["actions"][src])
@@ -488,6 +496,19 @@ def run(ctx):
                 failed = [c for c in failed if c not in ("c_res", "c_pol", "c_q")]
             if failed:
                 why = search_failing(case, res, planner, out) if conv else None
+                if why is None and "c_polu" in failed:
+                    # directly observable clause: positive probability on an unavailable action at a placeholder state
+                    sl_, al_ = res["state_list"], res["action_list"]
+                    P_, R_, av_, absf_, ini_ = gen_mdp.arrays(case["mdp"], sl_, al_)
+                    abs_, un_ = model_masks(P_, R_, av_, absf_, F(case["mdp"]["gamma"]))
+                    for s_ in range(len(sl_)):
+                        if un_[s_] and not abs_[s_]:
+                            row = [vlib.frac(x) if not isinstance(x, str) else None for x in out["pi"][s_]]
+                            bad = [a_ for a_, p_ in enumerate(row) if p_ is None or (p_ > 0 and not av_[s_][a_])]
+                            if bad or abs(sum(p_ for p_ in row if p_ is not None) - 1) > F(1, 10**9):
+                                why = {"clause": "policy at a state that can never reach an absorbing state is not a distribution over that state's available actions",
+                                       "state_index": s_, "action_indices": bad, "row": [str(x) for x in row]}
+                                break
                 detail = {"case": case, "planner": planner, "failed_clauses": failed, "impl": out,
                           "state_list": res["state_list"], "action_list": res["action_list"]}
                 if why:
